@@ -1,5 +1,7 @@
 """C09 - replacing an operand never changes how the surrounding expression groups."""
 from pyvc import native, frontend
+from pyvc.contract import verify_all
+from contracts import k_prec
 
 
 def run(rep, tier, seed):
@@ -34,8 +36,11 @@ def run(rep, tier, seed):
     rep.samples.extend(r['samples'][:3])
     rep.trusted.append('CPython 3.12 ast.parse is the definition of "parentheses required" at each (slot, child) '
                        'point; one representative source per child kind (the oracle depends on types and flags only)')
+    # the parenthesisation decision tree of the put path, every combination of callee answers
+    verify_all(rep, k_prec.decision_specs('C09'))
     sec = native.run('b_prec', 'main', {'tier': tier, 'seed': seed}, timeout=7200)
     sec['native_entry'] = ('b_prec', 'replay')
     rep.bounded(sec)
-    rep.remainder = ('_is_atom / _is_enclosed_or_line / _is_enclosed_in_parents (text scanners) and the decision tree of '
-                     '_make_exprlike_fst: bounded put-path check only')
+    rep.remainder = ('_is_atom / _is_enclosed_or_line / _is_enclosed_in_parents (text scanners): assumed answers in the decision '
+                     'obligations, bounded put-path check only; the Lambda-inside-f-string branch of the decision and the '
+                     'location / offset arithmetic of _make_exprlike_fst after the decision: bounded only')
